@@ -357,6 +357,9 @@ func genProgram(r *vk.RNG, asmSafe bool) ([]codec.Ins, bool) {
 		if nstr >= 2 {
 			ins.S2 = sel()
 		}
+		if asmSafe && op == codec.INCMP && r.Chance(1, 10) {
+			ins.S2 = "*" // the wildcard selector
+		}
 		if hasInt {
 			ins.N = randInt(r)
 		}
